@@ -31,7 +31,7 @@ type Config struct {
 	MaxDepth int
 	MaxStates int
 	Stop     func() bool
-	OnState  func(w World, history []Op) *Violation // optional per-new-state check
+	OnState  func(w World, history []Op) (v *Violation, prune bool) // optional per-new-state check; prune: do not expand this state
 	// ValidateReplay: every new state reached through Clone is also rebuilt by replaying its history on a
 	// fresh instance; the keys must agree (binds the clone shortcut to the implementation).
 	ValidateReplay bool
@@ -100,7 +100,7 @@ func Run(c Config) Result {
 				res.Transitions++
 				if v := c.Apply(w, op, true); v != nil {
 					addViol(v, hist)
-					if len(res.Violations) >= 8 {
+					if len(res.Violations) >= 40 {
 						return res
 					}
 					continue
@@ -117,8 +117,12 @@ func Run(c Config) Result {
 					}
 				}
 				if c.OnState != nil {
-					if v := c.OnState(w, hist); v != nil {
+					v, prune := c.OnState(w, hist)
+					if v != nil {
 						addViol(v, hist)
+					}
+					if prune {
+						continue
 					}
 				}
 				if len(res.Samples) < 3 && len(hist) >= 3 {
